@@ -68,6 +68,46 @@ def null_ns_schema(schema_text):
     return dot_ref(schema_text) or '"namespace": ""' in schema_text
 
 
+_PRIMS = ('null', 'boolean', 'int', 'long', 'float', 'double', 'bytes', 'string')
+
+
+def all_leaf_fields(schema_text):
+    """a top-level record all of whose field types are leaves (primitive, fixed, logical types on them): the
+    schemas on which a serde target may ignore any field of the unchanged code (it cannot ignore records or unions)"""
+    try:
+        js = json.loads(schema_text)
+    except ValueError:
+        return False
+    if not isinstance(js, dict) or js.get('type') != 'record':
+        return False
+    def leaf(t):
+        if isinstance(t, str):
+            return t in _PRIMS
+        # an enum-typed field cannot be ignored by the unchanged code (deserialize_any offers an enum access, IgnoredAny
+        # asks for the identifier through deserialize_ignored_any, which the identifier deserializer refuses): not a leaf here
+        return isinstance(t, dict) and (t.get('type') in _PRIMS or t.get('type') == 'fixed')
+    return all(leaf(f.get('type')) for f in js.get('fields', []))
+
+
+def judge_partial(run, partial, dec_ok, st, case):
+    """the Alternate<0> / Alternate<1> targets of the harness (every second field of a top-level record ignored)"""
+    if partial is None or tag_(partial) != 'partial':
+        return
+    for which, a in enumerate(partial[1:]):
+        t = tag_(a)
+        run.count('partial-target:%s' % t)
+        if t == 'ok':
+            if a[1] != '1' or a[2] != '1':
+                run.fail('partial-target-misreads', 'a target that ignores every second field (from %d) %s' % (
+                    which, 'keeps other values than a full read' if a[1] != '1' else 'consumes other bytes than a full read'), case)
+        elif t == 'err' and dec_ok and all_leaf_fields(st):
+            run.fail('partial-target-rejects', 'a target that ignores every second field (from %d) of a record of leaf fields fails on a datum both decoders read' % which, case)
+
+
+def tag_(x):
+    return x[0] if isinstance(x, list) and x and isinstance(x[0], str) else None
+
+
 class Fail(Exception):
     pass
 
